@@ -248,6 +248,15 @@ def check(ix, rep):
     if c is not None:
         ns = ordkernel.check_since_online(ix, rep, c)
         rep.floor('orderings of the untimed since merge', ns, 13)
+    # composite operations step their parts on every path
+    from sa.rules import step as _step
+    nns = _step.check_nested_steps(ix, rep, M.operation_classes(ix, 'dense'), 'dense-online')
+    rep.floor('sub-operations of composite dense-time online operations', nns, 4)
+    # operators of two monitors, or of two sub-formulas, share nothing: no operation object in a class body, no module-level state
+    from sa.rules import globals as _G
+    _G.fixture_selfcheck(rep)
+    ngl = _G.run_global(ix, rep, prefix='rtamt.semantics.stl.dense_time') + _G.run_global(ix, rep, prefix='rtamt.semantics.arithmetic.dense_time')
+    rep.floor('dense-time modules scanned for shared operation state', ngl, 30)
     explanation = (
         'Carry-over structure only. R-STEP: the update visitor steps every operation object exactly once per update (memo keyed by node name, hit '
         'decided by membership and not by the truth value of the cached result). R-SIB: the eleven binary dense-time online operations (and/or/implies/iff/xor, + - * / pow log) have '
